@@ -1,7 +1,7 @@
 CONF = {
     "level": "exploration",
-    "technique": "metamorphic property testing (rapid): the same program rendered plainly and with comments/blank lines/line breaks between arbitrary tokens; equality of canonical tree, lint diagnostics (multiset, locations excluded) and simulator behaviour",
-    "level_text": "Metamorphic relation over generated programs and generated decorations: nothing observable may change except diagnostic locations. Three program sources (core programs, the same with injected lint errors inside vcl_recv, nine-subroutine lifecycle VCLs). Exploration only.",
+    "technique": "metamorphic property testing (rapid): the same program rendered plainly and with comments/blank lines/line breaks between arbitrary tokens; equality of canonical tree (or of the parser's rejection), lint diagnostics (multiset, locations excluded), simulator behaviour and `falco test` reports",
+    "level_text": "Metamorphic relation over generated programs and generated decorations: nothing observable may change except diagnostic locations. Five program sources (core programs, the same with injected lint errors inside vcl_recv incl. one trigger per linter rule, nine-subroutine lifecycle VCLs, test files of the C10 generator run through `falco test -json` with ordinary comments around the annotation lines, switch statements the parser must reject whatever the decoration). Exploration only.",
     "cli": True,
     "campaigns": [rapid("rapid", 16000, 300000, bq=75)],
     "assumptions": [
